@@ -459,8 +459,8 @@ fn wrapper_schema(depth: usize) -> Built {
         nestings.push(next);
     }
     let all: Vec<String> = nestings.into_iter().flatten().collect();
-    let mut text = String::from("scalar Date\nenum E { A B }\ninput In { x: Int }\ninterface Node { id: ID }\ntype Obj implements Node { id: ID }\nunion U = Obj\ntype Query { a: Int }\n");
-    let mut type_names: Vec<String> = ["Date", "E", "In", "Node", "Obj", "U", "Query"].iter().map(|s| s.to_string()).collect();
+    let mut text = String::from("scalar Date\nenum E { A B }\ninput In { x: Int }\ninterface Node { id: ID }\ntype Obj implements Node { id: ID }\nunion U = Obj\ntype Query { a: Int }\ntype Args { f(i: ID, r: ID!, l: [ID!]!, ll: [[ID]!], d: Date, dl: [Date!], e: E!, n: In, nl: [In!]!): Int g(s: String = \"x\"): [Obj!]! }\n");
+    let mut type_names: Vec<String> = ["Date", "E", "In", "Node", "Obj", "U", "Query", "Args"].iter().map(|s| s.to_string()).collect();
     for leaf in ["Int", "Date", "E", "Obj", "Node", "U"] {
         for (k, n) in all.iter().enumerate() {
             let _ = writeln!(text, "type W{leaf}{k} {{ f: {} }}", n.replace('@', leaf));
